@@ -5,6 +5,8 @@ CONSTANTS
   KProgs <- MCKProgs
   RProgs <- MCRProgs
   FaultAts = {0, 0, 0, 2, 3, 5}
+  MultiQ = FALSE
+  KeepSched = TRUE
 CONSTRAINT EmitSched
 INVARIANTS MonitorOK
 CHECK_DEADLOCK FALSE
